@@ -254,8 +254,10 @@ Definition spec_deliver (add : V -> V -> V) (ς : sstate) (ta : nat) (rshape : l
       if negb (length (s_cells x) =? length vs)%nat then None else
       (* the destination takes the result shape (same flat order; column-major destinations
          are left to the Reshape rule and not specified here) *)
-      if s_cm x && negb (list_eqb (s_shape x) rshape) then None else
-      let x' := mkSten rshape (s_cells x) None 0 (s_view x) (s_cm x) in
+      if s_cm x && negb (shape_eq (s_shape x) rshape) then None else
+      (* vectors (n), (n,1), (1,n) count as the same shape: such a destination keeps its own *)
+      let x' := mkSten (if shape_eq (s_shape x) rshape then s_shape x else rshape)
+                       (s_cells x) None 0 (s_view x) (s_cm x) in
       let vals := if mode =? 2 then vs
                   else map (fun p => add (nth (fst p) (s_vals ς) vzero) (snd p)) (combine (s_cells x) vs) in
       Some (sset (mkSS (write_cells (s_vals ς) (s_cells x) vals) (s_tens ς)) r x', r)
